@@ -8,7 +8,7 @@ trap 'rm -rf "$D"' EXIT
 rsync -a --exclude _build --exclude .git /repo/ "$D/"
 case "$M" in
   sed:*) F=$(echo "$M" | cut -d: -f2); E=$(echo "$M" | cut -d: -f3-); sed -i "$E" "$D/$F"; (cd "$D" && diff -u /repo/$F $F | head -20 || true) ;;
-  *) (cd "$D" && patch -p1 -s < "$M") ;;
+  *) M=$(readlink -f "$M"); (cd "$D" && patch -p1 -s < "$M") ;;
 esac
 cd "$(dirname "$0")/.."
 VERIF_REPO="$D" python3 run_check.py "$P" "$@" && echo "MUTANT-RESULT: exit 0 (not detected)" || echo "MUTANT-RESULT: exit $?"
